@@ -90,5 +90,23 @@ claim("C20",
   "Not decided: kernel accounting; behaviour on malformed statistics beyond errors being returned; concurrency beyond creation atomicity.",
   "DESIGN.md §4 C20")
 
+claim("C02",
+  "table extraction by conditional constant propagation over the syscall-name dispatch vs the Linux signature table; conversion-chain rule; taint analysis of raw paths into lexical normalisers; guarded-by rules",
+  "Decides: for each of the 30 path-taking syscall names which register feeds the directory descriptor, the pathname and the flags, and which access class is asked for (two-path calls included); int32 truncation of every directory descriptor; read-only classification of open flags with fail-closed open_how; no Clean/Join/Dir/Abs on a not-yet-resolved path (one known finding, listed) and /proc/self normalisation of symlink targets; proc-alias policy before file policy; base selection incl. the empty path for unknown descriptors.",
+  "NOT decided: that the resolver's output equals the kernel's resolution on every concrete forest (value-level: symlink loops, depth bound, trailing slashes, NOFOLLOW variants), check/use races, contents returned by GetString (only its crash-freedom, C15).",
+  "DESIGN.md §4 C02")
+
+claim("C12",
+  "paired-release (typestate must-close) over discovered acquisition sites, must-pass-through to kill/reap steps with select-arm sensitivity, enumeration and classification of go statements",
+  "Decides: deferred kill-group+reap registered before the wait loops with no return in between; in the container every non-transport-lost return after a successful Start has passed kill(-1), the main wait and both halves of the wait-all handshake; both ends of the launch socket pair, raw opens, os.Open results, the container's socket ends and duplicated file, the started container on Build errors, received descriptor lists and NewSocket's temporary file are released on every path; the library's 9 goroutines each have an ending event, context watchers wait on a context derived and cancelled in their spawner.",
+  "Not decided: numeric return-to-baseline over arbitrary histories (a dynamic quantity), zombies the kernel re-parents, descriptor identity; pipe.NewPipe's reader ends only when the caller closes W (documented obligation).",
+  "DESIGN.md §4 C12")
+
+claim("C15",
+  "compiler prove pass (check_bce) as first-line bounds prover + pattern-based bound prover over SSA for the residue; conditional constant propagation for the vanished-tracee and progress rules; loop-shape classification",
+  "Decides on the scope reachable from the tracer's wait-status handler: every bounds check the compiler cannot eliminate is discharged by a sound local pattern (10 obligations today), no unchecked type assertion / unproven division / explicit panic; ESRCH at ptrace requests yields no verdict and the compared errors are unwrapped; every stop is continued or ends the run; every loop is bounded (range, constant depth bound, shrinking buffer, walk to parent); unknown syscall numbers kill.",
+  "Not decided: races inside the kernel's ptrace state machine, behaviour of a user-supplied Handler, memory exhaustion. Assumptions: os.Getpagesize() > 0; process_vm_readv returns 0 ≤ n ≤ requested; strings.LastIndex returns an index < len.",
+  "DESIGN.md §4 C15")
+
 for pid in [p for p in ["C%02d"%i for i in range(1,21)] if p not in CLAIMS]:
     na(pid, "check under construction in this session (design in DESIGN.md section 4); not yet claimed")
